@@ -9,6 +9,30 @@ From Scion Require Import Proofs.ProvStruct Proofs.ProvRender Proofs.ForwardView
 Import ListNotations.
 Import Router Network Prov.
 
+(** what a router leaves untouched: the hop fields, and the info fields from index [jl] on *)
+Definition frame (jl : nat) (q q' : pkt) : Prop :=
+  p_hops q' = p_hops q /\
+  forall j, (jl <= j)%nat -> nth_error (p_infos q') j = nth_error (p_infos q) j.
+
+Lemma frame_refl jl q : frame jl q q.
+Proof. split; auto. Qed.
+
+Lemma frame_trans jl q1 q2 q3 : frame jl q1 q2 -> frame jl q2 q3 -> frame jl q1 q3.
+Proof.
+  intros [A1 B1] [A2 B2]. split; [congruence|]. intros j Hj. rewrite B2, B1 by assumption. reflexivity.
+Qed.
+
+Lemma frame_store jl q j0 x : p_curr_inf q = N.of_nat j0 -> (j0 < jl)%nat ->
+  frame jl q (with_infos q (set_nthN (p_infos q) (p_curr_inf q) x)).
+Proof.
+  intros E Hj. split; [reflexivity|]. intros j Hjl. cbn [with_infos p_infos].
+  unfold set_nthN. rewrite E, Nat2N.id, nth_error_set_nth.
+  destruct (Nat.eqb j j0) eqn:X; [apply Nat.eqb_eq in X; lia|reflexivity].
+Qed.
+
+Lemma frame_inc jl q : frame jl q (inc_path q).
+Proof. split; reflexivity. Qed.
+
 Section Step.
 Variable mac : N -> N -> N -> N -> N -> N -> list N.
 Variable t : topology.
@@ -81,7 +105,7 @@ Lemma ingress_arrive q k ing r :
   exists q1,
     ingress_part (macq (a_key (asof k))) (cfg_of (asof k) r) now ing q =
     Ok (mkSt q1 (rhop (hop p k)) (rinfo p k true (js k)) (peerhop p k) false 0) /\
-    View q1 k k true.
+    View q1 k k true /\ frame jlim q q1.
 Proof.
   intros V Hk Hl Hj Ha.
   pose proof (arrives_from0 k ing Hk Ha) as F0.
@@ -96,10 +120,11 @@ Proof.
   { destruct Ha as [[-> _]|(_ & C & _)]; auto. }
   pose proof (arrive_beta _ _ _ HG k Hk Hc) as AB.
   (* the state after the SegID update *)
-  assert (S1 : exists q1, s1 = mkSt q1 h (rinfo p k true (js k)) pr false 0 /\ View q1 k k true).
+  assert (S1 : exists q1, s1 = mkSt q1 h (rinfo p k true (js k)) pr false 0 /\ View q1 k k true /\
+                          frame jlim q q1).
   { unfold s1. rewrite Cond. rewrite <- (sid_cur_mid p Hs k Hk) in AB.
     destruct (upd_in p k) eqn:U.
-    - eexists. split.
+    - eexists. split; [|split].
       + unfold store_inf, s0. cbn [s_p s_hop s_inf s_peer s_xover s_eg]. f_equal.
         unfold upd_segid, i0, h. unfold rinfo at 1 2 3 4 5. cbn [i_peer i_consdir i_segid i_ts i_rsv rhop h_mac].
         fold (sigma p k). rewrite AB. reflexivity.
@@ -107,12 +132,14 @@ Proof.
         * unfold ser_info, upd_segid, i0, h. unfold rinfo. cbn [i_peer i_consdir i_segid i_ts i_rsv rhop h_mac].
           fold (sigma p k). now rewrite AB.
         * intros j _ Hjs Hne. apply rinfo_eq. now apply (sid_other_mid _ _ _ HG).
-    - exists q. split.
+      + apply (frame_store jlim q (js k)); [apply (v_ci _ _ _ _ _ _ _ _ V)|assumption].
+    - exists q. split; [|split].
       + unfold s0. f_equal. apply rinfo_eq. exact AB.
       + apply (view_reinfo p pp lim jlim q k k false k true V). intros j _ Hjs.
         apply rinfo_eq. destruct (Nat.eq_dec j (js k)) as [->|Ne]; [exact AB|].
-        now apply (sid_other_mid _ _ _ HG). }
-  destruct S1 as (q1 & Es1 & V1). exists q1. split; [|exact V1]. rewrite <- Es1.
+        now apply (sid_other_mid _ _ _ HG).
+      + apply frame_refl. }
+  destruct S1 as (q1 & Es1 & V1 & Fr1). exists q1. split; [|split; [exact V1|exact Fr1]]. rewrite <- Es1.
   apply (ingress_part_pass _ c now ing q h i0 pr).
   - apply (parse_path_view p pp Hs lim jlim q k false V Hk Hl Hj).
   - apply (determine_peer_view p pp Hs lim jlim q k k false false h V Hk).
@@ -177,7 +204,8 @@ Lemma egress_tail q1 k ing r xo :
   let s := mkSt q1 (rhop (hop p k)) (rinfo p k true (js k)) (peerhop p k) xo 0 in
   exists s' q',
     after_xover c ing s = Ok s' /\ finish c s' = Forward (tr_eg p k) q' None /\
-    (if (eg_rtr k =? r)%N then View q' (S k) (S k) false else View q' k k true).
+    (if (eg_rtr k =? r)%N then View q' (S k) (S k) false else View q' k k true) /\
+    ((js k < jlim)%nat -> frame jlim q1 q').
 Proof.
   intros V Hk C Hv c s. assert (Hk' : (k < n)%nat) by lia.
   destruct (link_fact _ _ _ HG k Hk C) as (Ff & _ & _ & _ & Ez & _ & Up & _).
@@ -211,7 +239,9 @@ Proof.
       rewrite (num_hops_meta _ _ (view_meta p pp _ _ _ _ _ _ false V2)), (num_hops_render p pp Hs).
       rewrite (v_ch _ _ _ _ _ _ _ _ V2).
       replace (N.of_nat n <=? N.of_nat k + 1)%N with false by lia.
-      split; [reflexivity|]. now apply (view_inc p pp Hs).
+      split; [reflexivity|]. split; [now apply (view_inc p pp Hs)|].
+      intros Hj. apply (frame_trans jlim q1 q2); [|apply frame_inc].
+      unfold q2. apply (frame_store jlim q1 (js k)); [apply (v_ci _ _ _ _ _ _ _ _ V)|assumption].
     + assert (V2 : View q1 k (S k) false).
       { apply (view_reinfo p pp lim jlim q1 k k true (S k) false V). intros j _ Hjs. apply rinfo_eq.
         destruct (Nat.eq_dec j (js k)) as [->|Ne].
@@ -221,9 +251,10 @@ Proof.
       rewrite (num_hops_meta _ _ (view_meta p pp _ _ _ _ _ _ false V2)), (num_hops_render p pp Hs).
       rewrite (v_ch _ _ _ _ _ _ _ _ V2).
       replace (N.of_nat n <=? N.of_nat k + 1)%N with false by lia.
-      split; [reflexivity|]. now apply (view_inc p pp Hs).
+      split; [reflexivity|]. split; [now apply (view_inc p pp Hs)|]. intros _. apply frame_inc.
   - (* a sibling router owns it *)
-    eexists. split; [exact AX|]. cbn [s_eg s_p]. rewrite Gi, Sc. split; [reflexivity|exact V].
+    eexists. split; [exact AX|]. cbn [s_eg s_p]. rewrite Gi, Sc. split; [reflexivity|].
+    split; [exact V|]. intros _. apply frame_refl.
 Qed.
 
 (** * Position facts used by the steps *)
@@ -291,7 +322,7 @@ Lemma step_arrive q k ing r :
   exists q',
     process_scion (macq (a_key (asof k))) (cfg_of (asof k) r) now ing q = Forward (tr_eg p (eff k)) q' None /\
     (if (eg_rtr (eff k) =? r)%N then View q' (S (eff k)) (S (eff k)) false else View q' (eff k) (eff k) true) /\
-    asof (eff k) = asof k /\ (S (eff k) < n)%nat /\ crosses p (eff k) = true.
+    asof (eff k) = asof k /\ (S (eff k) < n)%nat /\ crosses p (eff k) = true /\ frame jlim q q'.
 Proof.
   intros V Hk Hl Hj Ha H0. assert (Hk' : (k < n)%nat) by lia.
   pose proof (arrives_from0 k ing Hk' Ha) as F0.
@@ -301,7 +332,7 @@ Proof.
     replace (Nat.eqb (S k) n) with false in * by (symmetry; apply Nat.eqb_neq; lia).
     destruct (after_junction k Hk C) as (_ & _ & _ & _ & _ & J & _). lia. }
   destruct Hll as [Hlk Hjk].
-  destruct (ingress_arrive q k ing r V Hk' Hlk Hjk Ha) as (q1 & Ein & V1).
+  destruct (ingress_arrive q k ing r V Hk' Hlk Hjk Ha) as (q1 & Ein & V1 & Fr1).
   unfold process_scion. rewrite Ein.
   rewrite (v_dst_ia _ _ _ _ _ _ _ _ V). cbn [cfg_of c_ia]. rewrite Ik.
   pose proof Hep as Hep'. unfold endpoints_ok in Hep'.
@@ -328,8 +359,10 @@ Proof.
         cbn [ing_ifid]. destruct (ingress_type k r H1 Hk' Cp) as (Lt & _ & _). rewrite Lt.
         apply veg_ext. destruct (link_fact _ _ _ HG k Hk C) as (_ & _ & Tf & _). rewrite Tf.
         now apply (types_intra _ _ _ HG). }
-    destruct (egress_tail q1 k ing r false V1 Hk C Hv) as (s' & q' & Eax & Efin & Vq).
-    cbv zeta in Eax. rewrite Eax. exists q'. repeat split; try assumption.
+    destruct (egress_tail q1 k ing r false V1 Hk C Hv) as (s' & q' & Eax & Efin & Vq & Frq).
+    cbv zeta in Eax. rewrite Eax. exists q'.
+    split; [exact Efin|]. split; [exact Vq|]. split; [reflexivity|]. split; [exact Hk|]. split; [exact C|].
+    apply (frame_trans jlim q q1 q' Fr1). now apply Frq.
   - (* effective segment change: the next hop field is used *)
     replace (Nat.eqb (S k) n) with false in * by (symmetry; apply Nat.eqb_neq; lia).
     destruct (after_junction k Hk C) as (C1 & N3 & Ph1 & Ph & L & J & K1).
@@ -348,9 +381,12 @@ Proof.
       { rewrite F0. replace (Nat.eqb k 0) with false by (symmetry; apply Nat.eqb_neq; lia).
         cbn [ing_ifid]. rewrite As1. destruct (ingress_type k r K1 Hk' Cp) as (Lt & _ & _). rewrite Lt.
         apply veg_ext. destruct (link_fact _ _ _ HG (S k) N3 C1) as (_ & _ & Tf & _). rewrite Tf. exact Tx. }
-      destruct (egress_tail (inc_path q1) (S k) (InExt (tr_in p k)) r true V2 N3 C1 Hv) as (s' & q' & Eax & Efin & Vq).
+      destruct (egress_tail (inc_path q1) (S k) (InExt (tr_in p k)) r true V2 N3 C1 Hv)
+        as (s' & q' & Eax & Efin & Vq & Frq).
       cbv zeta in Eax. rewrite As1, Ph1 in Eax. rewrite Eax. exists q'. rewrite As1 in Efin.
-      repeat split; assumption.
+      split; [exact Efin|]. split; [exact Vq|]. split; [exact As1|]. split; [exact N3|]. split; [exact C1|].
+      apply (frame_trans jlim q q1 q' Fr1). apply (frame_trans jlim q1 (inc_path q1) q'); [apply frame_inc|].
+      now apply Frq.
     + cbn [s_p s_peer]. now rewrite Xo, L.
     + cbn [s_p]. rewrite (v_ch _ _ _ _ _ _ _ _ V1).
       replace (N.of_nat k + 1)%N with (N.of_nat (S k)) by lia. rewrite nthN_of_nat.
@@ -374,7 +410,7 @@ Lemma step_deliver q k ing r :
 Proof.
   intros V Hn Hl Hj Ha. assert (Hk : (k < n)%nat) by lia.
   destruct (as_of_ok _ _ _ HG k Hk) as [Ak Ik].
-  destruct (ingress_arrive q k ing r V Hk Hl Hj Ha) as (q1 & Ein & V1).
+  destruct (ingress_arrive q k ing r V Hk Hl Hj Ha) as (q1 & Ein & V1 & _).
   unfold process_scion. rewrite Ein.
   rewrite (v_dst_ia _ _ _ _ _ _ _ _ V). cbn [cfg_of c_ia]. rewrite Ik.
   pose proof Hep as Hep'. unfold endpoints_ok in Hep'.
@@ -415,7 +451,7 @@ Lemma step_mid q k k0 r :
   r = eg_rtr k -> in_rtr k0 <> r ->
   exists q',
     process_scion (macq (a_key (asof k))) (cfg_of (asof k) r) now (InSib (in_rtr k0 + 1)) q =
-    Forward (tr_eg p k) q' None /\ View q' (S k) (S k) false.
+    Forward (tr_eg p k) q' None /\ View q' (S k) (S k) false /\ frame jlim q q'.
 Proof.
   intros V Hk C Hl Hj He K0 C0 As0 Hr Hne. assert (Hk' : (k < n)%nat) by lia.
   assert (K1 : (1 <= k)%nat).
@@ -494,9 +530,9 @@ Proof.
   cbn [bind].
   assert (Hv : validate_egress (from0 ing) (lt_of c (ing_ifid ing)) (Some (if_of r (nifof k (tr_eg p k)))) false = EgOk).
   { cbn [from0 ing ing_ifid N.eqb]. apply veg_int. now rewrite Hr. }
-  destruct (egress_tail q k ing r false V Hk C Hv) as (s' & q' & Eax & Efin & Vq).
+  destruct (egress_tail q k ing r false V Hk C Hv) as (s' & q' & Eax & Efin & Vq & Frq).
   cbv zeta in Eax. fold c h i pr in Eax. rewrite Eax. exists q'. split; [exact Efin|].
-  rewrite Hr, N.eqb_refl in Vq. exact Vq.
+  rewrite Hr, N.eqb_refl in Vq. split; [exact Vq|now apply Frq].
 Qed.
 
 End Step.
